@@ -406,7 +406,12 @@ func (s *vDMState) cleanup() {
 		}
 	}
 	vDMRouter.Unregister(s.dm)
-	s.bus.Close()
+	// (a manager that has not ended keeps its bus: deploymentWithdrawal.run
+	// dereferences the subscriber it could not get from a closed bus, and a
+	// panic of a leaked goroutine would end every monitor of this process)
+	if s.done() {
+		s.bus.Close()
+	}
 }
 
 // ---- oracle -----------------------------------------------------------------
